@@ -87,6 +87,13 @@ func bnConst(v ssa.Value) (int64, bool) {
 		i, ok := constant.Int64Val(c.Value)
 		return i, ok
 	}
+	// a parameter of a closed function that every caller binds to one constant
+	if pv, ok := v.(*ssa.Parameter); ok {
+		if k, ok := constParam(pv); ok && k.Value.Kind() == constant.Int {
+			i, ok := constant.Int64Val(k.Value)
+			return i, ok
+		}
+	}
 	// arithmetic on constants that go/ssa does not fold (a local initialised
 	// with a constant is a variable to the type checker)
 	if bo, ok := v.(*ssa.BinOp); ok {
@@ -450,6 +457,28 @@ func (a *bnAn) lo0(v ssa.Value, at *ssa.BasicBlock, depth int, stack map[ssa.Val
 		return 0
 	}
 	switch v := v.(type) {
+	case *ssa.Parameter:
+		// the minimum over what the callers pass (closed functions only)
+		if args, sites, ok := paramArgs(v); ok && depth < 6 && isIntType(v.Type()) {
+			best := int64(bnTop)
+			for i, arg := range args {
+				in, isIn := sites[i].(ssa.Instruction)
+				if !isIn || in.Block() == nil {
+					return bnUnk
+				}
+				sub := &bnAn{c: a.c, fn: in.Parent()}
+				l := sub.lo(arg, in.Block(), depth+3, map[ssa.Value]bool{})
+				if l == bnUnk {
+					return bnUnk
+				}
+				if l < best {
+					best = l
+				}
+			}
+			if best < bnTop/2 {
+				return best
+			}
+		}
 	case *ssa.Extract:
 		if call, ok := v.Tuple.(*ssa.Call); ok {
 			if l, ok := a.resultLo(call, v.Index, depth); ok {
@@ -465,6 +494,22 @@ func (a *bnAn) lo0(v ssa.Value, at *ssa.BasicBlock, depth int, stack map[ssa.Val
 			return -1
 		case n == "strings.Count" || n == "bytes.Count":
 			return 0
+		case (n == "builtin.min" || n == "builtin.max") && len(v.Call.Args) >= 1:
+			res := int64(bnUnk)
+			for i, arg := range v.Call.Args {
+				l := a.lo(arg, at, depth+1, stack)
+				if n == "builtin.min" {
+					if l == bnUnk {
+						return bnUnk
+					}
+					if i == 0 || l < res {
+						res = l
+					}
+				} else if l != bnUnk && (res == bnUnk || l > res) {
+					res = l
+				}
+			}
+			return res
 		}
 		if l, ok := a.resultLo(v, 0, depth); ok {
 			return l
